@@ -35,7 +35,9 @@ RULE = ('Hypothesis: FileSpec (1-4 dims len 1-4, 1-5 variables rank 0-3 incl.'
         '(kind int/float/str, length, values; length-1 arrays == scalars; the '
         'fill declaration compared as a group: an added _FillValue equal to '
         'the declared fill is allowed); variable names, order, dtype, '
-        'dimension tuples; masked cells masked, unmasked cells bit-identical.'
+        'dimension tuples; masked cells masked, unmasked cells bit-identical; '
+        'the reopened object is then saved and reopened once more and '
+        'compared again.'
         '  Non-trivial: masked variable, or non-float dtype, or >=2 attribute'
         ' kinds, or an unlimited dimension; distinct by sha1 of the spec.')
 ASSUMPTIONS = ['netCDF4-python/libnetcdf store and return what they are '
@@ -75,6 +77,14 @@ def _elems(code, special):
     return st.integers(-1000, 1000)
 
 
+# spellings of one type that createVariable accepts: numpy character code(s),
+# the kind+size form and the numpy name ('l' is int64 on this platform)
+TYPECODES = {
+    'S1': ['c', 'S1'], 'i1': ['b', 'i1', 'int8'], 'i2': ['h', 'i2', 'int16'],
+    'i4': ['i', 'i4', 'int32'], 'i8': ['q', 'l', 'i8', 'int64'],
+    'u1': ['B', 'u1', 'uint8'], 'u2': ['H', 'u2', 'uint16'],
+    'u4': ['I', 'u4', 'uint32'], 'u8': ['Q', 'L', 'u8', 'uint64'],
+    'f4': ['f', 'f4', 'float32'], 'f8': ['d', 'f8', 'float64']}
 _RESERVED = None
 
 
@@ -189,7 +199,8 @@ def cases(draw, tier='quick'):
                 fillattrs[style.split('+')[1]] = other
         variables.append(dict(name=name, dims=vd, dtype=code, data=data,
                               mask=mask, fill=fill, fillattrs=fillattrs,
-                              coord=coord,
+                              coord=coord, tc=draw(st.sampled_from(
+                                  TYPECODES[code])),
                               attrs=draw(attr_dict(S.VAR_ATTRS, 3))))
     # every unlimited dimension is used by at least one variable
     for u in unlset:
@@ -226,7 +237,12 @@ def build(fs):
         dt = np.dtype(S.DT[sv['dtype']])
         for k in list(kw):
             kw[k] = dt.type(kw[k]) if dt.kind != 'S' else kw[k]
-        var = f.createVariable(mv.name, S.CHAR[sv['dtype']], mv.dims, **kw)
+        var = f.createVariable(mv.name, sv.get('tc') or S.CHAR[sv['dtype']],
+                               mv.dims, **kw)
+        if var.dtype != dt:
+            from ..core import HarnessError
+            raise HarnessError('typecode %r gave dtype %s, expected %s' % (
+                sv.get('tc'), var.dtype, dt))
         var[...] = mv.data
         for k, val in mv.attrs.items():
             setattr(var, k, val)
@@ -281,12 +297,40 @@ def check_case(case):
         ok, g = guard(r, 'reopen-raises', lambda: pncopen(path, **kw))
         if not ok:
             return r
+        path2 = path + '.resaved' + ('.nc' if case['route'] == 'auto'
+                                      else '.dat')
         try:
             compare(r, g, m, fs)
+            if not r.failures and case.get('resave', True):
+                # second cycle: the reopened (netCDF-backed) object is itself
+                # "any file": saving it again and reopening must reproduce
+                # the same content
+                r.label('resaved')
+                n0 = len(r.failures)
+                ok, out2 = guard(r, 'resave-raises', lambda: g.save(
+                    path2, format=flavour, complevel=case['complevel'],
+                    verbose=0))
+                if ok:
+                    libstate.release(out2)
+                    del out2
+                    gc.collect()
+                    ok, h = guard(r, 'resave-reopen-raises',
+                                  lambda: pncopen(path2, **kw))
+                    if ok:
+                        try:
+                            compare(r, h, m, fs)
+                        finally:
+                            libstate.release(h)
+                            del h
+                            gc.collect()
+                        for f_ in r.failures[n0:]:
+                            f_.clause = 'resave-' + f_.clause
         finally:
             libstate.release(g)
             del g
             gc.collect()
+            if os.path.exists(path2):
+                os.remove(path2)
     finally:
         if os.path.exists(path):
             os.remove(path)
